@@ -566,7 +566,7 @@ std::vector<const char *> ev_structs(const Ev &e) {
     return r;
 }
 
-void analyse(const std::vector<Worker *> &ws, int N, const std::string &desc, RunStats &st) {
+void analyse(const std::vector<Worker *> &ws, int N, const std::string &desc, RunStats &st, const std::set<std::string> &keys_at_start) {
     std::vector<const Ev *> all;
     for (auto *w : ws) for (auto &e : w->log) all.push_back(&e);
     auto dump = [&](const std::vector<const Ev *> &v) { std::string s; std::vector<const Ev *> o(v); std::sort(o.begin(), o.end(), [](const Ev *a, const Ev *b) { return a->s < b->s; });
@@ -600,21 +600,22 @@ void analyse(const std::vector<Worker *> &ws, int N, const std::string &desc, Ru
         if (e->kind == EV_HS && (e->attempt == TICKET12 || e->attempt == PSK13)) by_key[e->in_ident].push_back({ e->s, e->e, 0, e->resumed, e });
         if (e->kind == EV_DELETE && e->rc >= 0) by_key[e->key].push_back({ e->s, e->e, 2, false, e });
     }
-    auto check_obj = [&](const char *what, const char *sig, const std::string &name, std::vector<ObjEv> &h) {
+    auto check_obj = [&](const char *what, const char *sig, const std::string &name, std::vector<ObjEv> &h, bool init) {
         bool has_read = false; for (auto &x : h) if (x.type == 0) has_read = true;
         if (!has_read) return;
         st.counts[std::string("lin-objects:") + what]++;
         if (h.size() > 24) { st.counts["lin-skipped(too-many-events)"]++; return; }
         std::set<uint64_t> dead; std::vector<int> order;
-        if (lin_dfs(h, h.size() == 32 ? 0xffffffffu : ((1u << h.size()) - 1), true, dead, order)) return;
+        if (lin_dfs(h, (1u << h.size()) - 1, init, dead, order)) return;
         std::vector<const Ev *> v; for (auto &x : h) v.push_back(x.src);
-        VF_FAIL(sig, "no sequential order of the operations on %s %s (consistent with real-time precedence) reproduces the observed resumption outcomes:%s\n  %s", what, name.c_str(), dump(v).c_str(), desc.c_str());
+        VF_FAIL(sig, "no sequential order of the operations on %s %s (initially %s; consistent with real-time precedence) reproduces the observed resumption outcomes:%s\n  %s", what, name.c_str(), init ? "valid/present" : "absent", dump(v).c_str(), desc.c_str());
     };
-    if (!pressure) for (auto &kv : by_id) check_obj("session-cache-entry", "not-serializable:session-cache-entry", hx(kv.first), kv.second);
-    for (auto &kv : by_key) check_obj("ticket-key", "not-serializable:ticket-key", kv.first, kv.second);
     // ---- ticket key bookkeeping
     std::map<std::string, const Ev *> loads, deletes;
     for (auto *e : all) { if (e->kind == EV_LOAD) loads[e->key] = e; if (e->kind == EV_DELETE && e->rc >= 0) deletes[e->key] = e; }
+    auto key_exists = [&](const std::string &k) { return keys_at_start.count(k) || loads.count(k); };   // a key removed in an earlier run must stay removed
+    if (!pressure) for (auto &kv : by_id) check_obj("session-cache-entry", "not-serializable:session-cache-entry", hx(kv.first), kv.second, true);
+    for (auto &kv : by_key) check_obj("ticket-key", "not-serializable:ticket-key", kv.first, kv.second, key_exists(kv.first));
     for (auto *e : all) {
         if (e->kind == EV_DELETE && e->rc < 0) {
             // the harness only deletes keys it loaded itself, so the only legal reason is "in use" by a concurrent RFC 5077 resumption
@@ -625,6 +626,7 @@ void analyse(const std::vector<Worker *> &ws, int N, const std::string &desc, Ru
         }
         if (e->kind == EV_HS && e->completed && e->mode != ID12 && !e->out_ident.empty() && e->out_ident != e->in_ident) {
             // a new ticket was issued: its key must not have been removed before the handshake began
+            VF_CHECK(key_exists(e->out_ident), "ticket-issued-under-unknown-key", "%s holds a ticket under key %s, which was neither loaded at the start of this run nor loaded during it; %s", ev_str(*e).c_str(), hx(e->out_ident).c_str(), desc.c_str());
             auto d = deletes.find(e->out_ident);
             VF_CHECK(d == deletes.end() || !(d->second->e < e->s), "ticket-issued-under-removed-key", "%s holds a ticket under key %s whose deletion finished at %llu; %s", ev_str(*e).c_str(), e->out_ident.c_str(),
                      (unsigned long long) d->second->e, desc.c_str());
@@ -744,6 +746,7 @@ void exit_with_engine_status() { fflush(NULL); syscall(SYS_exit_group, vf::drv()
 void run_once(const Program &p, int run_idx, uint64_t yield_seed, const std::string &desc0, RunStats &st, bool verbose, const vf::Ctx &ctx) {
     std::string desc = desc0 + fmt(" | run %d yield_seed=%llu", run_idx, (unsigned long long) yield_seed);
     int raw0 = g_nraw.load(std::memory_order_relaxed);
+    std::set<std::string> keys_at_start(g_keys_live.begin(), g_keys_live.end());
     pthread_barrier_t start; pthread_barrier_init(&start, NULL, (unsigned) p.N);
     std::vector<Worker *> ws;
     for (int i = 0; i < p.N; i++) {
@@ -804,7 +807,7 @@ void run_once(const Program &p, int run_idx, uint64_t yield_seed, const std::str
     }
     if (!first_sig.empty()) { st.counts["tsan-reports"] += (uint64_t) (raw1 - raw0); throw vf::Fail{ first_sig, first_text + "  " + desc }; }
     // ---- oracle 3 and the rest
-    analyse(ws, p.N, desc, st);
+    analyse(ws, p.N, desc, st, keys_at_start);
 }
 
 void prop(vf::Tape &t, vf::Ctx &c) {
@@ -816,7 +819,7 @@ void prop(vf::Tape &t, vf::Ctx &c) {
     if (c.verbose) fprintf(stderr, "case: %s\n", desc.c_str());
     g_slots.clear(); g_slots.resize((size_t) p.nslots);   // (slots are empty between runs)
     // a replay of a failing tape keeps trying further yield seeds: the schedule is not part of the tape
-    int runs = c.verbose ? std::max(p.nseeds, 10) : p.nseeds;
+    int runs = c.verbose ? std::max(p.nseeds, 24) : p.nseeds;
     RunStats st; int done = 0;
     struct Tally { vf::Ctx &c; RunStats &st; const Program &p; int &done; const std::string &desc;
         ~Tally() {
